@@ -8,6 +8,7 @@ import (
 	"path/filepath"
 	"regexp"
 	"strings"
+	"sync"
 	"time"
 
 	"github.com/magisterquis/curlrevshell/verifharness/mon"
@@ -287,6 +288,74 @@ func runLockOrder(r *mon.Run, bin string, idx int) {
 	s.Quit()
 }
 
+// runRepeat: a repeated Ctrl+O after the last shell output must not extend
+// the mute: "muting ends once no shell output has arrived for the pause
+// interval".  This is an upper bound on a real-time delay, so it is judged
+// against a baseline measured in the same session (a plain mute cycle) and a
+// firing is confirmed by running the session again, alone.
+// It returns "" (held), "inconclusive" or a description of the overrun.
+func runRepeat(r *mon.Run, bin string, idx int, tag string) string {
+	home := filepath.Join(r.Work, fmt.Sprintf("rp%d%s", idx, tag))
+	s, err := crs.Start(bin, home, "-listen-address", "127.0.0.1:0", "-tls-certificate-cache", "")
+	if err != nil {
+		return "inconclusive"
+	}
+	defer s.Close()
+	z := &sess{r: r, idx: 2000 + idx, s: s, t0: time.Now()}
+	io, err := crs.OpenIO(s.Addr)
+	if err != nil {
+		return "inconclusive"
+	}
+	defer io.Close()
+	z.in, z.out = io.In, io.Out
+	if _, ok := s.Wait(`Shell is ready`, 0, crs.Bound); !ok {
+		return "inconclusive"
+	}
+	cycle := func(repeatAfter time.Duration) (over time.Duration, ok bool) {
+		z.send()
+		z.ctrlO()
+		if z.bad {
+			return 0, false
+		}
+		for i := 0; i < 4; i++ {
+			z.send()
+			time.Sleep(100 * time.Millisecond)
+		}
+		last := z.toks[len(z.toks)-1].sent
+		if repeatAfter > 0 {
+			sleepUntil(last.Add(repeatAfter))
+			z.ctrlO() // "Already muted": must not restart the quiet period
+			if z.bad {
+				return 0, false
+			}
+		}
+		z.awaitUnmute(last)
+		if z.bad {
+			return 0, false
+		}
+		m := z.mutes[len(z.mutes)-1]
+		return m.uObs.Sub(last.Add(Pause)), true
+	}
+	base, ok := cycle(0)
+	if !ok {
+		return "inconclusive"
+	}
+	rep, ok := cycle(1200 * time.Millisecond)
+	if !ok {
+		return "inconclusive"
+	}
+	z.ev("baseline overrun %.3fs, overrun with a repeated Ctrl+O 1.2 s after the last output %.3fs", base.Seconds(), rep.Seconds())
+	r.Count("repeat_cycles", 1)
+	s.Quit()
+	if base > 300*time.Millisecond {
+		return "inconclusive" // the machine is too loaded for a sub-second judgement
+	}
+	if rep > base+800*time.Millisecond {
+		return fmt.Sprintf("with a second Ctrl+O typed 1.2 s after the last shell output the un-muting announcement came %.3f s after the pause interval had passed (baseline in the same session: %.3f s): the repeated Ctrl+O extended the mute although no shell output arrived", rep.Seconds(), base.Seconds())
+	}
+	return ""
+}
+
 func runSession(r *mon.Run, bin string, idx int, withCtrlO bool) {
 	rng := r.Rng("session", idx)
 	home := filepath.Join(r.Work, fmt.Sprintf("s%d", idx))
@@ -533,6 +602,35 @@ func Run(r *mon.Run) {
 		}
 	})
 	r.Floor("lockorder_sessions", int64(nlo))
+	nrp := r.N(4, 16)
+	var suspects []int
+	var smu sync.Mutex
+	mon.Parallel(nrp, nrp, func(i int) {
+		if !r.Want("repeat", i) {
+			return
+		}
+		switch v := runRepeat(r, bin, i, ""); v {
+		case "":
+			r.Eval(1)
+			r.Distinct(fmt.Sprintf("repeat|%d", i))
+		case "inconclusive":
+			r.Inconclusive("repeat-Ctrl+O session could not be judged (load or start-up problem)")
+		default:
+			smu.Lock()
+			suspects = append(suspects, i)
+			smu.Unlock()
+		}
+	})
+	for _, i := range suspects { // a fired real-time bound is confirmed alone, with nothing else running
+		v := runRepeat(r, bin, i, "-alone")
+		if v != "" && v != "inconclusive" {
+			r.Violate("repeat", i, "mute-extended-by-repeated-ctrl-o", v, nil)
+		} else {
+			r.Inconclusive("a repeat-Ctrl+O overrun did not reproduce when run alone")
+		}
+		r.Eval(1)
+	}
+	r.Floor("repeat_cycles", int64(nrp))
 	r.Floor("sessions", int64(n))
 	r.Floor("mute_periods", int64(n))
 	r.Floor("tokens_suppressed", 20)
